@@ -9,8 +9,8 @@
     C15_grid_accessors_pure C15_grid_setters_refuted C15_cube_accessors_pure C15_image_accessors_pure
     C15_deepcopy_independent C15_deepcopy_fresh_grid C15_deepcopy_fresh_image C15_deepcopy_fresh_flowfield
     C15_shallow_copy_shares_data
-    C15_transform_accessors_partial C15_transform_accessors_refuted C15_transform_shared_parameters_refuted
-    C15_transform_shared_child_refuted
+    C15_transform_accessors_pure C15_composite_copy_owns_children
+    C15_transform_shared_parameters_refuted C15_transform_shared_child_refuted
 
   Part 1 is a theorem about *executions*: a call of the tensor-level API is observed as an op
   trace; the harness sends every recorded trace to `safe` and compares the verdict with a direct
@@ -336,20 +336,22 @@ theorem C15_shallow_copy_shares_data :
 /-! ### Transforms: which accessors are pure depends on where `params` lives -/
 
 /-- the full statement: every with-argument accessor leaves the receiver alone — for every parameter kind and
-    class of leaf transform, and for composite transforms (`condition(x)`, `grid(g)`) -/
+    class of leaf transform, and for composite transforms (`condition(x)`, `grid(g)`): no node of the receiver's
+    graph changes, so no slot of the receiver and no slot of the receiver's children does -/
 def C15_transform_accessors_Statement : Prop :=
   (∀ (isParam svf : Bool) (a : TAcc), canonPure isParam svf a = true) ∧
   canonCompositePure false = true ∧ canonCompositePure true = true
 
-/-- **What holds** (code with `__copy__` copying the `_parameters` container, 3110eb9, and the repaired
-    `StationaryVelocityFieldTransform.grid_`, F-15e): for a leaf transform every with-argument accessor — `condition`,
-    `grid`, `data`, `unlink`, `inverse`, `matrix` — leaves every node of the receiver's graph as it was, whether
-    `params` is an `nn.Parameter` or a buffer, with or without an `exp` child module (for the stationary-velocity
-    class `grid(g)` with another `align_corners` flag rebinds a *copy* of `exp`; the shared child, node 15, is untouched).
-    Missing for the full statement: composite transforms, whose shallow copies share the child transforms (below). -/
-theorem C15_transform_accessors_partial :
-    ∀ (isParam svf : Bool) (a : TAcc), canonPure isParam svf a = true := by
-  intro isParam svf a; cases isParam <;> cases svf <;> cases a <;> decide
+/-- **The full statement holds** (code with `__copy__` copying the `_parameters` container, 3110eb9; the repaired
+    `StationaryVelocityFieldTransform.grid_`, 35474ea; and `CompositeTransform.__copy__` owning shallow copies of
+    the children, F-15f/g): on the canonical graphs every with-argument accessor — `condition`, `grid`, `data`,
+    `unlink`, `inverse`, `matrix` of a leaf transform (parameter- or buffer-held `params`, with or without an `exp`
+    child), `condition` and `grid` of a composite — leaves every node reachable from the receiver as it was. -/
+theorem C15_transform_accessors_pure : C15_transform_accessors_Statement := by
+  refine ⟨?_, ?_, ?_⟩
+  · intro isParam svf a; cases isParam <;> cases svf <;> cases a <;> decide
+  · decide +kernel
+  · decide +kernel
 
 /-- the stationary-velocity `grid(g)` really takes the copy-the-child path on the canonical graph: the result's
     `exp` is a new node carrying the new flag, the original's is node 15 with the old one -/
@@ -359,13 +361,23 @@ example :
     lookupEntry (st.heap.node (deref st (deref st (st.regs 10) kModules) kExp)).entries kAlignCorners = some (.imm 2) ∧
     lookupEntry (st.heap.node 15).entries kAlignCorners = some (.imm 1) := by decide
 
-/-- **Refuted**: the full statement fails for composite transforms (F-15f): `CompositeTransform.condition(x)`
-    conditions the child transforms, which the shallow copy shares with the original. -/
-theorem C15_transform_accessors_refuted : ¬ C15_transform_accessors_Statement := by
-  intro h
-  have := h.2.1
-  revert this
-  decide
+/-- child `i` of the composite held in register `r` -/
+def childOf (st : OState) (r i : Nat) : Nat :=
+  deref st (deref st (attrNode st (st.regs r) kTransforms) kModules) (100 + i)
+
+/-- **The shallow copy of a composite owns copies of its children** — and the accessor acts on them:
+    after `condition(x)` on the canonical composite the result's child is a new node (not 18) that carries the new
+    `_args` (the tuple, node 13) and has lost its buffered `u`, while it still shares the parameter tensor (node 9)
+    with the original's child; the original's child keeps `_args`, its buffers dict (node 20) still holds `u`. -/
+theorem C15_composite_copy_owns_children :
+    let st := canonCompositeRun false
+    st.halted = false ∧ childOf st 10 0 ≠ 18 ∧ 26 ≤ childOf st 10 0 ∧
+    lookupEntry (st.heap.node (childOf st 10 0)).entries kArgs = some (.ref 13) ∧
+    lookupEntry (st.heap.node (deref st (childOf st 10 0) kBuffers)).entries kU = none ∧
+    lookupEntry (st.heap.node (deref st (childOf st 10 0) kBuffers)).entries kParams = some (.ref 9) ∧
+    childOf st 0 0 = 18 ∧ lookupEntry (st.heap.node 18).entries kArgs = some (.imm 0) ∧
+    lookupEntry (st.heap.node 20).entries kU = some (.ref 24) := by
+  decide +kernel
 
 /-- **Why the `_parameters` container must be copied** (F-15a, repaired upstream by commit 3110eb9):
     with the earlier `__copy__`, which shared `_parameters`, `data(arg)` on a transform whose `params`
@@ -376,11 +388,13 @@ theorem C15_transform_shared_parameters_refuted :
     (List.range 16).all (fun n => (canonRunDataOld false).heap.node n == (canonTransformHeap false false).node n) = true := by
   decide
 
-/-- **Refuted** (F-15f, F-15g): on the canonical composite, `condition(x)` rewrites the shared child (node 18:
-    `_args`, `_kwargs`) and clears its buffered `u` (nodes 20, 22); `grid(g)` with another grid clears the child's
-    buffers (nodes 20, 22) — nothing else changes. -/
+/-- **Why a composite must copy its children** (F-15f, F-15g, repaired by `CompositeTransform.__copy__`): with the
+    earlier copy (base `__copy__` only, children shared) `condition(x)` rewrote the original's child (node 18: `_args`,
+    `_kwargs`) and cleared its buffered `u` (nodes 20, 22), and `grid(g)` with another grid cleared the child's
+    buffers (nodes 20, 22).  A statement about the pre-repair variant of the model (`sharedChildren = true`), like
+    `C15_transform_shared_parameters_refuted`; the current code violates neither. -/
 theorem C15_transform_shared_child_refuted :
-    canonCompositeChanged false = [18, 20, 22] ∧ canonCompositeChanged true = [20, 22] := by
+    canonCompositeChangedOld false = [18, 20, 22] ∧ canonCompositeChangedOld true = [20, 22] := by
   decide
 
 end Deepali
